@@ -1,10 +1,8 @@
 ---- MODULE MC_HierarchyAlgo ----
 (* M for C05: the front end's algorithm on every hierarchy of the case space with <= N classes. *)
 EXTENDS HierarchyAlgo, HierarchyCases
-CONSTANTS N, NSort, SortAllNames
-CasesDef ==
-    UpTo(PartA, N) \cup UpTo(PartB, N) \cup UNION {PartC(n, n <= 3) : n \in 1..N}
-    \cup UpTo(PartD, N) \cup UpTo(PartE, N) \cup UpTo(PartF, N) \cup UpTo(PartH, N)
+CONSTANTS N, Full, NSort, SortAllNames
+CasesDef == UpTo(N, Full)
 SortCasesDef == UNION {PartG(n, SortAllNames \/ n < NSort) : n \in 1..NSort}
 Init == InitWith(CasesDef)
 Spec == Init /\ [][Next]_vars
